@@ -7,10 +7,10 @@ from . import shared
 
 X = C.X
 META = {
-    "explanation": "R1 limiter protocol: in every impl of CommandSizeLimiter::try_arg all writes to self are dominated by the Ok edge of cursor.try_next and the locally built refusal carries the same argument; "
+    "explanation": "R1 limiter protocol: in every impl of CommandSizeLimiter::try_arg all writes to self are dominated by the Ok edge of cursor.try_next and the locally built refusal carries the same argument; every counting limiter (-n, -L) is registered before any size limiter (the first refusal decides out_of_chars, which -x acts on); "
                    "R2 guarded increment: (initial value, comparison, increment, refusal edge) of each limiter vs the oracle table; the -s cost is computed once and is the value compared and added; "
                    "R3 linear handling: Argument is neither Clone nor Copy, is constructed only by the readers / for initial arguments, CommandBuilder::execute consumes the builder, every batch starts from a clone of the template limiters, extra_args only grows by push; "
-                   "R6 which arguments end an input line (terminator flag writers of the default reader: a line ending in a blank continues); R4 initial arguments charged once, passed first and unchanged; R5 process_input decision graph simulated against the reference flush-and-retry loop on every assignment of its atoms (refill/accept/refuse/-x/-r/pending/child result)",
+                   "R6 which arguments end an input line (terminator flag writers of the default reader: a line ending in a blank continues); R4 initial arguments charged once, passed first and unchanged, and every part of the action that execute puts on the command line is a part that CommandBuilderOptions::new offered to the limiters; R5 process_input decision graph simulated against the reference flush-and-retry loop on every assignment of its atoms (refill/accept/refuse/-x/-r/pending/child result)",
     "decides": "the batching protocol on every path: no argument dropped, duplicated or reordered by the loop, limits checked before state updates, refusal only on the failing side of the limit comparison",
     "does_not_decide": "numeric maximality across interacting limiters for concrete lengths; that the -s cost equals what the OS charges (C06)",
 }
